@@ -41,7 +41,8 @@ func (k Keeper) HandleTimeoutOrder(ctx sdk.Context, orderId uint64) {
 			timeoutShards = append(timeoutShards, shard)
 			timeoutCount++
 		}
-		if shard.Status == ordertypes.ShardCompleted {
+		if shard.Status == ordertypes.ShardCompleted || shard.Status == ordertypes.ShardMigrating {
+			// a migration in progress is not a stalled shard of this order
 			completedShards = append(completedShards, id)
 		} else {
 			uncompletedShards = append(uncompletedShards, id)
